@@ -23,7 +23,7 @@ def permutk(l,k):
 # comparisons of its elements.
 def nextperm(l):
     k = len(l)-2
-    while (k>=0 and l[k]>l[k+1]): k -= 1
+    while (k>=0 and l[k]>=l[k+1]): k -= 1
     lpos = k+1
     rpos=len(l)-1
     while lpos<rpos:
@@ -33,7 +33,7 @@ def nextperm(l):
     if k==-1:
         return l
     i = k+1
-    while (l[i]<l[k]): i+=1
+    while (l[i]<=l[k]): i+=1
     l[i],l[k] = l[k],l[i]
     return l
 
